@@ -276,6 +276,7 @@ func runRobust(tier string, seed int64, phase string) {
 		recCheck(valid12, l, Event{"cls": "wraplang"})
 		recByEntropy(r.bytes(16), l, Event{"fam": "wraplang"})
 	}
+	runUniform(seed, all10, "uniform")
 	runWhitespaceMix(seed, map[string]int{"quick": 600, "thorough": 10000}[tier], langs)
 	// fuzzed bytes
 	nf := map[string]int{"quick": 300, "thorough": 5000}[tier]
